@@ -10,6 +10,7 @@ here = os.path.dirname(os.path.abspath(__file__))
 p = [json.loads(l) for l in open(os.path.join(here, "..", "properties.jsonl")) if json.loads(l)["id"] == pid][0]
 t = open(os.path.join(here, "agent_prompt.txt")).read()
 t = t.replace("__WT__", wt).replace("__ID__", pid).replace("__TITLE__", p["title"]).replace("__STATEMENT__", p["statement"]).replace("__QUANT__", p["quantifier"]["text"])
+t += "\n\nFiles the property is anchored in (the change should be in one of them, any of them is fair game): " + ", ".join(p.get("anchors", {}).get("files", []))
 if len(sys.argv) > 3:
     t += "\n\nIdeas that were already used by others for this property (pick something DIFFERENT, in a different function or mechanism if possible):\n" + open(sys.argv[3]).read()
 print(t)
